@@ -7,15 +7,19 @@ import copy
 
 
 def merge_patch(target, patch):
-    """RFC 7386 MergePatch(Target, Patch)."""
+    """RFC 7386 MergePatch(Target, Patch); never aliases or mutates its arguments."""
+    return _merge(copy.deepcopy(target), patch)
+
+
+def _merge(target, patch):
     if not isinstance(patch, dict):
         return copy.deepcopy(patch)
-    result = dict(target) if isinstance(target, dict) else {}
+    result = target if isinstance(target, dict) else {}
     for key, value in patch.items():
         if value is None:
             result.pop(key, None)
         else:
-            result[key] = merge_patch(result.get(key), value)
+            result[key] = _merge(result.get(key), value)
     return result
 
 
